@@ -51,6 +51,8 @@ double vf_finite_double(void) { char b[96]; init(); if (rd("double", b)) { doubl
 void vf_assume(_Bool c) { if (!c) { printf("REJECT\n"); exit(0); } }
 void vf_assert_(_Bool c, const char* id) { printf("A %s %d\n", id, (int)c); if (!c) nfail++; }
 void vf_witness(void) {}
+void vf_split(_Bool c) { (void)c; }
+
 void vf_out_int(long v) { printf("O %ld\n", v); }
 void vf_out_double(double v) { uint64_t u; memcpy(&u,&v,8); if (v != v) printf("O nan\n"); else printf("O %016llx\n", (unsigned long long)u); }
 int vf_failures(void) { return nfail; }
